@@ -214,6 +214,35 @@ func runLongLivedClients(res *racResult, rng *rand.Rand, nl int, rowsSet []uint8
 			if k == len(h)-1 || rng.Intn(3) == 0 {
 				continue
 			}
+			// sometimes forget one or two remembered leaves again (Prune): the others stay provable
+			if len(d.R) > 1 && rng.Intn(3) == 0 {
+				var rs []Hash
+				for x := range d.R {
+					rs = append(rs, x)
+				}
+				sort.Slice(rs, func(i, j int) bool { return fmt.Sprint(rs[i]) < fmt.Sprint(rs[j]) })
+				P := []Hash{rs[rng.Intn(len(rs))]}
+				if len(rs) > 2 && rng.Intn(2) == 0 {
+					if x := rs[rng.Intn(len(rs))]; x != P[0] {
+						P = append(P, x)
+					}
+				}
+				var perr error
+				pan := safely(func() { perr = d.m.Prune(P) })
+				res.eval("MapPollard.Prune.rac.total")
+				if pan != "" || perr != nil {
+					res.fail("MapPollard.Prune.rac.total", d.in(h, "mask", mask, "after_block", k, "prune", shortHashes(P)), fmt.Sprintf("panic=%q err=%v", pan, perr), "pruned")
+					okRun = false
+					break
+				}
+				for _, x := range P {
+					delete(d.R, x)
+				}
+				if !d.checkInvariant(res, h, fmt.Sprintf("long-lived after-block-%d after-prune %s", k, shortHashes(P)), true) {
+					okRun = false
+					break
+				}
+			}
 			// remember up to 3 more live leaves, preferring the last leaf (a root of its own when n is odd)
 			var cand []Hash
 			for _, x := range d.spec.liveHashes() {
